@@ -137,6 +137,27 @@ def _number_nodes(tree: ast.AST) -> None:
         stack.extend(reversed(list(ast.iter_child_nodes(n))))
 
 
+def _foreign_overrides(path: str, class_bases: dict, class_methods: list) -> set:
+    """(class name, method name) pairs such that a subclass defined in ANOTHER file redefines the method: a call
+    `self.method()` inside the class may dispatch there."""
+    def ancestors(c, seen=None):
+        seen = seen or set()
+        for b in class_bases.get(c, ()):
+            if b not in seen:
+                seen.add(b)
+                ancestors(b, seen)
+        return seen
+
+    out = set()
+    for pth, cname, meths in class_methods:
+        if pth == path:
+            continue
+        for a in ancestors(cname):
+            for m in meths:
+                out.add((a, m))
+    return out
+
+
 class Program:
     """All of pyhms as parsed source."""
 
@@ -167,12 +188,17 @@ class Program:
         returns_arg: dict[str, int | None] = {}
         refs_by_file: dict[str, set[str]] = {}
         defs_by_file: dict[str, set[str]] = {}
+        class_bases: dict[str, set[str]] = {}
+        class_methods: list = []
         for p in files:
             try:
                 raw = ast.parse(p.read_text(), filename=str(p))
             except (SyntaxError, UnicodeDecodeError):
                 continue
             defs_by_file[str(p)] = {x.name for x in ast.walk(raw) if isinstance(x, (ast.FunctionDef, ast.AsyncFunctionDef))}
+            for cd in [x for x in ast.walk(raw) if isinstance(x, ast.ClassDef)]:
+                class_bases.setdefault(cd.name, set()).update(b.id if isinstance(b, ast.Name) else b.attr for b in cd.bases if isinstance(b, (ast.Name, ast.Attribute)))
+                class_methods.append((str(p), cd.name, {b.name for b in cd.body if isinstance(b, (ast.FunctionDef, ast.AsyncFunctionDef))}))
             refs_by_file[str(p)] = {x.attr for x in ast.walk(raw) if isinstance(x, ast.Attribute)} | {x.id for x in ast.walk(raw) if isinstance(x, ast.Name)} | {a.name for x in ast.walk(raw) if isinstance(x, ast.ImportFrom) for a in x.names}
             owners = {}
             for par in ast.walk(raw):
@@ -219,7 +245,7 @@ class Program:
                 from .normalize import normalize_module
 
                 try:
-                    tree = normalize_module(tree, returns_arg=self.returns_arg, foreign_refs=set().union(*[v for k, v in refs_by_file.items() if k != str(p)]) if refs_by_file else set(), foreign_defs=set().union(*[v for k, v in defs_by_file.items() if k != str(p)]) if defs_by_file else set())
+                    tree = normalize_module(tree, returns_arg=self.returns_arg, foreign_refs=set().union(*[v for k, v in refs_by_file.items() if k != str(p)]) if refs_by_file else set(), foreign_defs=_foreign_overrides(str(p), class_bases, class_methods))
                 except RecursionError as e:  # pragma: no cover
                     raise AnalysisError(f"normalisation of {rel} failed: {e}") from e
             _number_nodes(tree)
